@@ -96,10 +96,12 @@ func (a *amp) classOf(kind, id string) int {
 		return c
 	}
 	c := hashClass(mk, a.K)
-	if t := a.task(); !a.Hashed && t >= 0 {
+	if t := a.task(); t >= 0 {
 		n := a.pos[t]
 		a.pos[t]++
-		if t < len(a.scripts) && n < len(a.scripts[t]) {
+		if a.Hashed {
+			// keep the hash
+		} else if t < len(a.scripts) && n < len(a.scripts[t]) {
 			c = ((a.scripts[t][n] % a.K) + a.K) % a.K
 		} else {
 			c = n % a.K
